@@ -94,8 +94,11 @@ class Hang(BaseException):
 
 
 class time_limit:
-    """`with time_limit(seconds):` - raises Hang in the main thread when the body runs longer (SIGALRM based; a hang
-    of the implementation is a finding, it must not hang the check)"""
+    """`with time_limit(seconds):` - raises Hang in the main thread when the body has used `seconds` of CPU time
+    (ITIMER_PROF: user + system time of this process), or 30 x that in wall-clock time as a backstop.  A hang of the
+    implementation is a finding, it must not hang the check; but a check process that is merely starved by other work
+    on the machine must not be mistaken for one (a wall-clock limit of 10 s fired once on a loaded machine, thorough
+    seed 71, on a template that compiles in 0.4 s - a false alarm of the harness, see DESIGN 10.26)."""
 
     def __init__(self, seconds):
         self.seconds = seconds
@@ -105,13 +108,17 @@ class time_limit:
 
     def __enter__(self):
         import signal
-        self.old = signal.signal(signal.SIGALRM, self._fire)
-        signal.setitimer(signal.ITIMER_REAL, self.seconds)
+        self.old = signal.signal(signal.SIGPROF, self._fire)
+        self.old_alrm = signal.signal(signal.SIGALRM, self._fire)
+        signal.setitimer(signal.ITIMER_PROF, self.seconds)
+        signal.setitimer(signal.ITIMER_REAL, self.seconds * 30)
 
     def __exit__(self, *exc):
         import signal
+        signal.setitimer(signal.ITIMER_PROF, 0)
         signal.setitimer(signal.ITIMER_REAL, 0)
-        signal.signal(signal.SIGALRM, self.old)
+        signal.signal(signal.SIGPROF, self.old)
+        signal.signal(signal.SIGALRM, self.old_alrm)
         return False
 
 
